@@ -261,6 +261,31 @@ Proof.
   rewrite H by (auto; left; auto). f_equal. apply IH; auto. intros; apply H; auto. right; auto.
 Qed.
 
+(* two mode-wise maps whose 1-D matrices compose to the identity compose to the identity *)
+Lemma msum_two_maps F G ns idx (c : list nat -> T) : inb ns idx ->
+  (forall n i k, In n ns -> i < n -> k < n -> bsum K n (fun j => F n i j * G n j k) = delta i k) ->
+  msum K ns (fun jdx => gprod F ns idx jdx * msum K ns (fun m => gprod G ns jdx m * c m)) = c idx.
+Proof.
+  intros Hi HFG. pose proof (inb_length _ _ Hi) as Li.
+  rewrite (msum_ext K ns _ (fun jdx => msum K ns (fun m => gprod F ns idx jdx * gprod G ns jdx m * c m))).
+  2:{ intros jdx Hj. rewrite <- msum_mul_l by auto. apply msum_ext; intros; ring. }
+  rewrite msum_swap.
+  rewrite (msum_ext K ns _ (fun m => gprod (fun n i k => bsum K n (fun j => F n i j * G n j k)) ns idx m * c m)).
+  2:{ intros m Hm. pose proof (inb_length _ _ Hm) as Lm. rewrite <- msum_gprod_comp by auto.
+      rewrite <- msum_mul_r. apply msum_ext; intros; ring. }
+  apply msum_gprod_delta; auto.
+Qed.
+Lemma chain_map_cores (f : core T -> core T) : (forall G, cr1 (f G) = cr1 G /\ cr2 (f G) = cr2 G) ->
+  forall Y r rl, chain r Y rl -> chain r (map f Y) rl.
+Proof.
+  intros Hf. induction Y as [|G Y IH]; intros r rl H; cbn [map chain] in *; auto.
+  destruct H as [A B]. destruct (Hf G) as [E1 E2]. rewrite E1, E2. split; auto.
+Qed.
+Lemma shape_map_cores (f : core T -> core T) : (forall G, cn (f G) = cn G) -> forall Y, shape (map f Y) = shape Y.
+Proof. intros Hf Y. unfold shape. rewrite map_map. apply map_ext. auto. Qed.
+Lemma Forall_shape (P : nat -> Prop) (Y : list (core T)) : Forall P (shape Y) <-> Forall (fun G => P (cn G)) Y.
+Proof. unfold shape. rewrite Forall_map. tauto. Qed.
+
 (* a map over the cores that is a mode-wise matrix, core by core *)
 Lemma map_tmode (f : core T -> core T) (M : nat -> nat -> nat -> T) Y :
   (forall G, In G Y -> f G = cmode (cn G) (M (cn G)) G) ->
